@@ -697,8 +697,22 @@ type c05CornerGoal struct {
 	Args  []*term.Term
 }
 
+// c05MustReturn: corner goals made of library predicates on finite arguments only, with no goal that can run forever: they
+// have to return by themselves (family "goal-corner-finite": a step-budget hit is a violation, as for the matrix)
+var c05MustReturn = []string{
+	"N = L, length(L, N)", "N = L, length([a|L], N)", "L = N, length([a|L], N)", "length(L, L)", "length([a,b|X], X)", "X = Y, length([a,b|X], Y)",
+	"L = [a|L1], N = L1, length(L, N)", "length(L, N), N >= 2, !", "T = N, length([a,b,c|T], N)", "atom_length(A, A)", "X = Y, atom_length(X, Y)",
+	"append(X, [a|X], [b])", "X = f(Y), Y = 1, X = f(1)", "msort([c,a,b|T], L)", "sort(L, L)", "N = T, nth0(N, [a,b|T], E)", "N = T, nth1(N, [a|T], E)",
+	"succ(X, X)", "X = Y, succ(X, Y)", "between(1, N, N)", "N = M, between(1, N, M)", "atom_chars(X, X)", "X = Y, atom_chars(X, Y)", "number_codes(X, X)",
+	"copy_term(X, X), X = f(X1), X1 = a", "functor(F, F, 1)", "functor(F, foo, F)", "X = Y, functor(X, foo, Y)", "T =.. T", "X = Y, X =.. Y", "arg(N, f(N), A)",
+	"sub_atom(abc, B, B, B, S)", "atom_concat(X, X, abab)", "atom_concat(X, Y, X)", "keysort(L, L)", "length(L, 3), L = [A|L2], length(L2, N)",
+}
+
 func (c *c05) genCorner(cx *Ctx) []*Item {
 	var items []*Item
+	for _, g := range c05MustReturn {
+		items = append(items, c05TextGoal("goal-corner-finite", g, ""))
+	}
 	for _, g := range c05Corner {
 		items = append(items, c05TextGoal("goal-corner", g, ""))
 	}
